@@ -6,7 +6,7 @@ C15): for a well-formed (`Inv`), open, expiry-free cache, the exact effect of `g
 on the set of keys, and the callbacks they fire.
 -/
 set_option linter.unusedVariables false
-namespace AsherahVerif.Cache
+namespace AsherahVerif.Cache.Res
 
 theorem step_get_eff {c : Cache} (h : Inv c) (hc : c.closing = false) (he : c.expiry = 0) (k : Nat) (orc : Nat → Bool) :
     (step c (.get k) orc).cbs = [] ∧ (step c (.get k) orc).cache.items = c.items ∧
@@ -97,4 +97,4 @@ theorem step_close_eff {c : Cache} (h : Inv c) (hc : c.closing = false) (orc : N
   rw [List.map_map] at this
   exact this
 
-end AsherahVerif.Cache
+end AsherahVerif.Cache.Res
